@@ -228,7 +228,7 @@ class Session:
             return self._flush(idx)
         from netqasm.sdk.qubit import Qubit
 
-        before_ids = [q.qubit_id for q in self.handles]
+        before_ids = [q.qubit_id if q is not None else None for q in self.handles]
         try:
             if k == "new":
                 self.handles.append(Qubit(self.conn))
@@ -245,29 +245,35 @@ class Session:
             elif k == "free":
                 self.handles[op[1]].free()
             elif k == "keep":
-                n, recv, burst, bells = keep_fields(op)
+                n, recv, burst, bells, sq = keep_fields(op)
+                f = self.sock.recv_keep if recv else self.sock.create_keep
+                qs = f(number=n, sequential=sq)
                 self._responses(n, recv, burst=burst, bells=bells)
-                qs = self.sock.recv_keep(number=n) if recv else self.sock.create_keep(number=n)
                 self.handles += list(qs)
             elif k == "seq":
-                n, recv, burst, bells, body = seq_fields(op)
-                self._responses(n, recv, burst=burst, bells=bells)
+                n, recv, burst, bells, body, sq = seq_fields(op)
 
                 def post(_builder, q, _pair):
                     run_body(q, body)
 
                 f = self.sock.recv_keep if recv else self.sock.create_keep
-                self.handles += list(f(number=n, sequential=True, post_routine=post))
+                qs = f(number=n, sequential=sq, post_routine=post)
+                self._responses(n, recv, burst=burst, bells=bells)
+                self.handles += list(qs)
             elif k == "ctx":
                 n, recv, body, bells = ctx_fields(op)
                 self._responses(n, recv, bells=bells)
                 cm = self.sock.recv_context(number=n) if recv else self.sock.create_context(number=n)
+                known = {id(q) for q in self.conn.active_qubits}
                 with cm as (q, pair):
                     run_body(q, body)
                 if body == "keep":
-                    # the pairs stay in memory; the handles that hold their IDs are the last n
-                    # active qubits: the host may go on using them
-                    self.handles += list(self.conn.active_qubits)[-n:]
+                    # the pairs stay in memory; the handles that hold their IDs are the active
+                    # qubits that appeared during the block: the host may go on using them.  If
+                    # the SDK lists fewer than n, the missing ones are dead placeholders (None):
+                    # the host cannot address them, and the next flush shows the disagreement
+                    fresh = [q for q in self.conn.active_qubits if id(q) not in known][:n]
+                    self.handles += fresh + [None] * (n - len(fresh))
             else:
                 raise KeyError(k)
         except (AssertionError, ValueError) as e:
@@ -280,7 +286,7 @@ class Session:
             self.problems.append((f"the SDK raised {type(e).__name__} on operation {op}", idx))
             self.ended = True
             return self.obs[-1]
-        if any(q.qubit_id != v for q, v in zip(self.handles, before_ids)):
+        if any(q is not None and q.qubit_id != v for q, v in zip(self.handles, before_ids)):
             self.relocations += 1
         self.obs.append(("step", self.ids()))
         return self.obs[-1]
@@ -337,13 +343,14 @@ def run_body(q, body):
         raise KeyError(body)
 
 
-def keep_fields(op):   # ["keep", n, recv, burst=False, bells=None]
-    return op[1], op[2], (op[3] if len(op) > 3 else False), (op[4] if len(op) > 4 else None)
-
-
-def seq_fields(op):    # ["seq", n, recv, burst=False, bells=None, body="md"]
+def keep_fields(op):   # ["keep", n, recv, burst=False, bells=None, sequential=False]   (no post routine)
     return (op[1], op[2], (op[3] if len(op) > 3 else False), (op[4] if len(op) > 4 else None),
-            (op[5] if len(op) > 5 else "md"))
+            (op[5] if len(op) > 5 else False))
+
+
+def seq_fields(op):    # ["seq", n, recv, burst=False, bells=None, body="md", sequential=True]   (with a post routine)
+    return (op[1], op[2], (op[3] if len(op) > 3 else False), (op[4] if len(op) > 4 else None),
+            (op[5] if len(op) > 5 else "md"), (op[6] if len(op) > 6 else True))
 
 
 def ctx_fields(op):    # ["ctx", n, recv, body="md", bells=None]
@@ -392,7 +399,9 @@ def gen_program(repo, cfg, rng, max_len, want_refusal=False):
                 return [0 if rng.random() < 0.35 else rng.randint(1, 3) for _ in range(n)]
 
             for n in range(1, min(3, room) + 1):
-                op = ("keep", n, rng.random() < 0.5, rng.random() < 0.5, bells(n))
+                # sequential without a post routine: one pair is accepted, more are refused (ValueError)
+                sq = rng.random() < (0.3 if n == 1 else (0.04 if want_refusal else 0.0))
+                op = ("keep", n, rng.random() < 0.5, rng.random() < 0.5, bells(n), sq)
                 if refusal_expected(cfg, s.ids(), op):
                     if want_refusal:
                         cand.append((op, 0.3))
@@ -402,11 +411,15 @@ def gen_program(repo, cfg, rng, max_len, want_refusal=False):
                 if body == "keep" and cfg.single_comm and n > 1:
                     body = "free"
                 cand.append((("ctx", n, rng.random() < 0.5, body, bells(n)), 0.8 / n))
-            ns = rng.randint(1, 3)
+            # keep with a post routine, sequential or not (the API accepts both)
+            sq = rng.random() < 0.5
+            ns = rng.randint(1, 3) if sq else rng.randint(1, min(3, room))
             body = rng.choice(BODIES)
-            if body == "keep" and ns > 1:
+            own_ids = not sq and not cfg.single_comm      # every pair has its own ID
+            if body == "keep" and ns > 1 and not own_ids:
                 body = "mi_free"
-            cand.append((("seq", ns, rng.random() < 0.5, rng.random() < 0.5, bells(ns), body), 0.8))
+            burst = rng.random() < 0.5 and not own_ids     # own IDs: the trace depends on the schedule
+            cand.append((("seq", ns, rng.random() < 0.5, burst, bells(ns), body, sq), 1.0))
         if live:
             h = rng.choice(live)
             cand += [(("g1", h), 2.0), (("mi", h), 1.5), (("md", h), 3.0), (("free", h), 2.0)]
@@ -434,14 +447,17 @@ def gen_program(repo, cfg, rng, max_len, want_refusal=False):
             nh += op[1]
         elif op[0] == "seq":
             if op[5] == "keep":
-                live.append(nh)  # a single pair that the post routine kept
+                live += list(range(nh, nh + op[1]))  # pairs that the post routine kept
             nh += op[1]          # else: handles handed out, already consumed by the post routine
         elif op[0] == "ctx" and op[3] == "keep":
-            live += list(range(nh, nh + op[1]))
+            # (a handle the SDK does not list is a dead placeholder)
+            live += [h for h in range(nh, nh + op[1]) if s.handles[h] is not None]
             nh += op[1]
         elif op[0] in ("md", "free"):
             live.remove(op[1])
-        assert len(s.handles) == nh, (len(s.handles), nh, before)
+        if len(s.handles) != nh:   # the SDK handed out a different number of handles than pairs
+            s.problems.append((f"operation {list(op)} handed out {len(s.handles) - before} handles", len(ops) - 1))
+            break
     if not s.ended:
         ops.append(["flush"])
         s.apply(("flush",))
@@ -462,7 +478,9 @@ def enumerate_programs(cfg, depth):
             nxt.append((["keep", 1, True, False, [1]], live + [nh], nh + 1))
             nxt.append((["ctx", 1, True, "free", [2]], live, nh))
             nxt.append((["ctx", 1, False, "keep"], live + [nh], nh + 1))
-            nxt.append((["seq", 2, True, True, [3, 1], "mi_free"], live, nh + 2))
+            nxt.append((["seq", 2, True, True, [3, 1], "mi_free", True], live, nh + 2))
+            if room >= 2:
+                nxt.append((["seq", 2, False, False, [0, 2], "free", False], live, nh + 2))
             if room >= 2:
                 nxt.append((["keep", 2, True, True, [2, 3]], live + [nh, nh + 1], nh + 2))   # both OKs at the first poll
                 nxt.append((["ctx", 2, False, "h_free"], live, nh))
@@ -500,14 +518,14 @@ def coq_op(op):
     if k == "free":
         return f"Free {op[1]}"
     if k == "keep":
-        n, recv, _, bells = keep_fields(op)
-        return f"EprKeep {n} {str(bool(recv)).lower()} {coq_nonphi(bells)}"
+        n, recv, _, bells, sq = keep_fields(op)
+        return f"EprKeep {n} {str(bool(recv)).lower()} {str(bool(sq)).lower()} {coq_nonphi(bells)}"
     if k == "ctx":
         n, recv, body, _ = ctx_fields(op)
         return f"EprContext {n} {str(bool(recv)).lower()} {coq_body(body)}"
     if k == "seq":
-        n, recv, _, bells, body = seq_fields(op)
-        return f"EprKeepSeq {n} {str(bool(recv)).lower()} {coq_nonphi(bells)} {coq_body(body)}"
+        n, recv, _, bells, body, sq = seq_fields(op)
+        return f"EprKeepSeq {n} {str(bool(recv)).lower()} {str(bool(sq)).lower()} {coq_nonphi(bells)} {coq_body(body)}"
     raise KeyError(k)
 
 
